@@ -169,6 +169,11 @@ func (it *Interp) expr(fr *frame, e Expr) ([]Value, *ExcV) {
 		return cur, nil
 	case *Compound:
 		it.kind("compound")
+		for _, p := range e.Parts {
+			if _, ok := p.(*Index); ok {
+				it.kind("compound-with-index")
+			}
+		}
 		parts := make([][]Value, len(e.Parts))
 		multi := false
 		for i, p := range e.Parts {
@@ -345,6 +350,23 @@ func (it *Interp) sliceRange(s string, length int) (int, int, *ExcV) {
 }
 
 func (it *Interp) indexValue(c, ix Value) (Value, *ExcV) {
+	switch e := c.(type) {
+	case *ListV:
+		if len(e.Items) == 0 {
+			it.kind("index-on-empty")
+			it.kind("index-on-empty-list")
+		}
+	case *MapV:
+		if len(e.Keys) == 0 {
+			it.kind("index-on-empty")
+			it.kind("index-on-empty-map")
+		}
+	case string:
+		if e == "" {
+			it.kind("index-on-empty")
+			it.kind("index-on-empty-string")
+		}
+	}
 	switch c := c.(type) {
 	case *ListV:
 		if s, ok := ix.(string); ok {
